@@ -6,7 +6,7 @@ import os
 import vlib
 
 SUB = "c17"
-MODULES = ["Mtv.Props.C17"]
+MODULES = ["Mtv.Props.C17", "Mtv.Props.C17Life"]
 THEOREMS = [
     "Mtv.Client.tryExpand_total",
     "Mtv.Client.tryExpand_param",
@@ -29,6 +29,13 @@ THEOREMS = [
     "Mtv.Client.returned_after_scribbling",
     "Mtv.Client.held_error_kept",
     "Mtv.Client.shared_cells_change_held_errors",
+    "Mtv.Client.Life.stepS_refines",
+    "Mtv.Client.Life.runS_refines",
+    "Mtv.Client.Life.stepS_no_overlap",
+    "Mtv.Client.Life.runS_no_overlap",
+    "Mtv.Client.Life.reader_survives_connection_loss_serialised",
+    "Mtv.Client.Life.stranding_history_excluded",
+    "Mtv.Client.Life.migrate_with_hangup_settles",
 ]
 RULE = ("operations: every row of specificErrors (regenerated from the source) and every family of the "
         "specification × 26 parameter strings (absent, zero, signed, leading zeros, 2^31, 2^63-1, 2^63, -2^63, "
@@ -55,7 +62,13 @@ RULE = ("operations: every row of specificErrors (regenerated from the source) a
         "message, description, parameter, Error() text) after all later conversions, where every caller writes into the error "
         "it was given before the next conversion, from 2-16 goroutines released together, and through the real client (one "
         "caller per reply: one after the other, all in flight answered in order / in reverse order / each answered after the "
-        "previous caller returned). distinct = distinct operation "
+        "previous caller returned); the migration while the old data centre hangs up (c17.race): the home peer answers rpc_error 303 "
+        "PHONE_MIGRATE_2 and closes the connection right behind the frame (FIN; thorough: half-close, RST, delays of 50-300 us), so "
+        "that the caller's goroutine and the reading routine both replace the connection - 120 runs each under GOMAXPROCS 1, 2 and "
+        "16 (thorough: 700, and goroutines held at the yield points): in EVERY run the call returns the new data centre's answer for "
+        "this request, a request issued afterwards completes there, the new data centre has exactly one open connection (the one "
+        "that carried both), the old one none opened later, and exactly one goroutine is in the receive loop - interleavings are "
+        "SAMPLED, not enumerated. distinct = distinct operation "
         "lines; each is compared with the Lean model and judged by the independent oracle of the property text")
 
 GEN_LEAN = os.path.join(vlib.LEAN, "Mtv", "Gen", "ErrTables.lean")
